@@ -120,15 +120,16 @@ Definition cstep (st : cstate) (l : clabel) : coutcome :=
               else COk st []
     end
   | TransitionAfter key o =>
-    if t_closed o then
-      (* unlink + give back the reset slot *)
-      let r1 :=
-        if negb (t_pending_reset o) && t_reset_counted o then
-          if num_lreset st <=? 0 then CStuck 7     (* assert!(num_local_reset_streams > 0) *)
-          else COk (upd_lreset st (num_lreset st - 1)) []
-        else COk st [] in
-      match r1 with
-      | COk st1 _ =>
+    (* the slot in the locally-reset count is given back as soon as the record has left the
+       reset-expiration queue, closed (= RST_STREAM flushed) or not *)
+    let r1 :=
+      if negb (t_pending_reset o) && t_reset_counted o then
+        if num_lreset st <=? 0 then CStuck 7     (* assert!(num_local_reset_streams > 0) *)
+        else COk (upd_lreset st (num_lreset st - 1)) []
+      else COk st [] in
+    match r1 with
+    | COk st1 _ =>
+      if t_closed o then
         if negb (t_sched_reset o) && cmem key (counted st1) then
           (* dec_num_streams; the side is recomputed from the stream id by the code *)
           if negb (match clook key (counted st1) with Some b => Bool.eqb b (t_local o) | None => false end) then CStuck 8
@@ -139,9 +140,9 @@ Definition cstep (st : cstate) (l : clabel) : coutcome :=
             if num_recv st1 <=? 0 then CPanic 9
             else COk (upd_recv st1 (num_recv st1 - 1) (cdel key (counted st1))) []
         else COk st1 []
-      | r => r
-      end
-    else COk st []
+      else COk st1 []
+    | r => r
+    end
   end.
 
 Definition cinit (ms : option Z) (mr : option Z) (mlr mrr : Z) (mle : option Z) : cstate :=
